@@ -23,6 +23,7 @@ RULE += ' Times / bounds / subsets also read-only; subsets of dtype uint64 / int
 RULE += ' Round 5: requests naming a cluster twice; positional subset_chunks / subset_spikes.'
 RULE += ' Round 6: unsorted spike-time vectors; raw files shorter than the spike train in the model route.'
 RULE += ' Round 7: n_chunks_kept as NumPy integers of every width on grids of 130-300 chunks; model route with unreferenced template ids and a small export before the judged larger one.'
+RULE += ' Round 8: one subset buffer refilled in place between three requests on one selector.'
 EXHAUSTIVE = {'quick': False, 'thorough': False}
 FLOORS = {'quick': {'evaluations': 60000, 'distinct_nontrivial': 3000,
                     'monitors': {'M2._flatten_per_cluster.checked': 10000, 'model_subset_judged': 30}},
